@@ -116,3 +116,32 @@ Theorem C03_symbol_map_total_core : forall w : CoreAst.workspace,
 Proof. exact IndexerSim.c03_symbol_map_total_core. Qed.
 Print Assumptions C03_indexer_ids_valid_core.
 Print Assumptions C03_symbol_map_total_core.
+
+(** ---- the TRANSLATED SOURCE of the recursive readers (tie of group "lines": coq/gen/GenSymbolMap.v is regenerated from
+    symbol_map.rs + symbol_map/*.rs by t_symbolmap; props/SymbolMapSource.v [SymbolMap_model_is_source] relates every
+    function to the hand model, the clauses about Record::find_field / is_subclass_of conditionally on "the model does not
+    answer EOutOfFuel").  Composed with the totality theorems above the condition disappears: with (number of records + 1)
+    fuel the translated `Record::find_field` and `Record::is_subclass_of` return without error, with the model's answer,
+    for every allocated record -- on every state reached by an op log with allocated ids, and on every state the indexer
+    model reaches (Core fragment, no hypothesis). *)
+From TG.Gen Require GenSymbolMap.
+From TG.Proofs Require SymbolSource.
+Theorem C03_source_recursion_total : forall ops S r,
+  ops_ids_wf ops = true -> run_ops ops = SOk S -> r < next_id S KRecord ->
+  let fuel := Datatypes.S (length (sm_records S)) in
+  (forall n, exists o, find_field fuel S r n = SOk o /\
+                       sbind (record S r) (fun e => GenSymbolMap.src_Record_find_field fuel e S n) = SOk o) /\
+  (forall other, exists b, is_subclass_of fuel S r other = SOk b /\
+                           sbind (record S r) (fun e => GenSymbolMap.src_Record_is_subclass_of fuel e S other) = SOk b).
+Proof. exact SymbolSource.source_recursion_total. Qed.
+Theorem C03_source_recursion_total_core : forall (w : CoreAst.workspace) r,
+  let S := IndexerOps.abs (Indexer.index_ws w) in
+  r < next_id S KRecord ->
+  let fuel := Datatypes.S (length (sm_records S)) in
+  (forall n, exists o, find_field fuel S r n = SOk o /\
+                       sbind (record S r) (fun e => GenSymbolMap.src_Record_find_field fuel e S n) = SOk o) /\
+  (forall other, exists b, is_subclass_of fuel S r other = SOk b /\
+                           sbind (record S r) (fun e => GenSymbolMap.src_Record_is_subclass_of fuel e S other) = SOk b).
+Proof. exact SymbolSource.source_recursion_total_core. Qed.
+Print Assumptions C03_source_recursion_total.
+Print Assumptions C03_source_recursion_total_core.
